@@ -204,24 +204,32 @@ impl kani::Arbitrary for Hk {
         Hk(kani::any())
     }
 }
+static mut HASH_IN_CHECK: bool = false;
 impl Hash for Hk {
     fn hash<H: Hasher>(&self, s: &mut H) {
         unsafe {
-            if HASH_CALLS == HASH_AT && !HASH_MAP.is_null() {
-                let mm = &*HASH_MAP;
-                let (main, old) = mm.verif_parts();
-                let sc = scan(mm, self);
-                assert!(main.len() == sc.nfull_main, "[C07] at a Hash invocation the main table's count disagrees with its contents");
-                if let Some((ot, it)) = old {
-                    assert!(ot.len() == sc.nfull_old, "[C07] at a Hash invocation the old table's count disagrees with its contents");
-                    assert!(it.verif_agrees(ot), "[C07] at a Hash invocation inside carry the cached old-table iterator disagrees with the old table: a panicking Hash leaves a map whose next carry over-reads");
-                }
-                assert!(sc.count <= 1, "[C07] at a Hash invocation the key being hashed is stored twice");
-                if sc.count == 0 {
-                    HASH_SEEN_IN_FLIGHT = true;
+            // hashes computed by the inspection itself (scan recomputes stored hashes) are not
+            // invocations by griddle: neither counted nor inspected
+            if !HASH_IN_CHECK {
+                let c = HASH_CALLS;
+                HASH_CALLS += 1;
+                if c == HASH_AT && !HASH_MAP.is_null() {
+                    HASH_IN_CHECK = true;
+                    let mm = &*HASH_MAP;
+                    let (main, old) = mm.verif_parts();
+                    let sc = scan(mm, self);
+                    assert!(main.len() == sc.nfull_main, "[C07] at a Hash invocation the main table's count disagrees with its contents");
+                    if let Some((ot, it)) = old {
+                        assert!(ot.len() == sc.nfull_old, "[C07] at a Hash invocation the old table's count disagrees with its contents");
+                        assert!(it.verif_agrees(ot), "[C07] at a Hash invocation inside carry the cached old-table iterator disagrees with the old table: a panicking Hash leaves an element the iterator no longer covers (or a stale count)");
+                    }
+                    assert!(sc.count <= 1, "[C07] at a Hash invocation the key being hashed is stored twice");
+                    if sc.count == 0 {
+                        HASH_SEEN_IN_FLIGHT = true;
+                    }
+                    HASH_IN_CHECK = false;
                 }
             }
-            HASH_CALLS += 1;
         }
         s.write_u8(self.0)
     }
@@ -250,7 +258,8 @@ fn pan_hash_in_insert(sh: Shape, at: usize) {
     kani::cover!(true, "reach: end of harness");
     core::mem::forget(m);
 }
-// Not registered: these harnesses do not finish under CBMC within 10 minutes (the inspection
-// inside Hash::hash is inlined at every hashing site of insert + carry). The Hash-in-carry
-// crash points are therefore outside the C07 claim; see DESIGN.md.
-// harness_p!(pan_hash_in_insert__s8_4a_at1, pan_hash_in_insert, S8_4A, 1);
+harness_p!(pan_hash_in_insert__s8_4a_at1, pan_hash_in_insert, S8_4A, 1);
+harness_p!(pan_hash_in_insert__s8_4a_at2, pan_hash_in_insert, S8_4A, 2);
+harness_p!(pan_hash_in_insert__s8_8g4_at1, pan_hash_in_insert, S8_8G4, 1);
+harness_p!(pan_hash_in_insert__u4f_at2, pan_hash_in_insert, U4F, 2);
+harness_p!(pan_hash_in_insert__u4f_at0, pan_hash_in_insert, U4F, 0);
